@@ -57,6 +57,12 @@ class Run:
         self.errors = []
         self.replay_dir = os.path.join(VERIF, "replays", pid)
         os.makedirs(self.replay_dir, exist_ok=True)
+        for f in os.listdir(self.replay_dir):          # replay files of earlier runs are stale
+            if f.endswith(".json"):
+                try:
+                    os.unlink(os.path.join(self.replay_dir, f))
+                except OSError:
+                    pass
 
     # ------------------------------------------------------------------ deductive part
     def add_deductive(self, results):
